@@ -26,20 +26,31 @@ structure Crypto where
   /-- `[0u8; 32]` -/
   zero : List Nat
 
-/-- `Transaction::{Put, Delete}` (the other variants are further writes of one key) -/
+/-- `Transaction::{Put, Delete, CompareAndSwap}`.  `cas k e v`: write `v` only if the current value of `k`
+    equals `e` (`none` = empty `expected_data`, which is also what an absent key compares as).  The remaining
+    variants (`Embed`, `NodeCreate`, `NodeDelete`, `EdgeCreate`, `TableInsert`, `TableUpdate`, `TableDelete`) are
+    unconditional puts / deletes of one prefixed key, i.e. `put` / `del` on another key. -/
 inductive Tx where
   | put (k v : Nat)
   | del (k : Nat)
+  | cas (k : Nat) (e : Option Nat) (v : Nat)
 deriving DecidableEq, Repr
+
+def optCode : Option Nat → Nat
+  | none => 0
+  | some e => e + 1
 
 /-- stands for `bitcode::serialize(tx)` -/
 def Tx.enc : Tx → List Nat
   | .put k v => [1, k, v]
   | .del k => [2, k, 0]
+  | .cas k e v => [3, k, optCode e, v]
 
+/-- `Transaction::affected_key` -/
 def Tx.key : Tx → Nat
   | .put k _ => k
   | .del k => k
+  | .cas k _ _ => k
 
 /-- `BlockHeader`, fields in declaration order -/
 structure Header where
@@ -134,10 +145,17 @@ def blockAt (s : List (SKey × SVal)) (h : Nat) : Option Block :=
   | some (.block b) => some b
   | _ => none
 
+/-- the `data` bytes `CompareAndSwap` compares with: `None` for an absent key (`unwrap_or(&[])`) -/
+def dataAt (s : List (SKey × SVal)) (k : Nat) : Option Nat :=
+  match sget s (.data k) with
+  | some (.data x) => some x
+  | _ => none
+
 /-- `apply_transaction_to_store` -/
 def applyTx (s : List (SKey × SVal)) : Tx → List (SKey × SVal)
   | .put k v => sput s (.data k) (.data v)
   | .del k => sdel s (.data k)
+  | .cas k e v => if dataAt s k = e then sput s (.data k) (.data v) else s
 
 def applyTxs (s : List (SKey × SVal)) (txs : List Tx) : List (SKey × SVal) :=
   txs.foldl applyTx s
@@ -263,6 +281,39 @@ def genesisBlock (C : Crypto) (proposer : List Nat) (ts : Nat) : Block :=
 def initChain (C : Crypto) (s : List (SKey × SVal)) (proposer : List Nat) (ts : Nat) : ChainSt :=
   let g := genesisBlock C proposer ts
   { store := sput (sput s (.block 0) (.block g)) .chainMeta (.height 0), height := 0, tip := g.header.hash C }
+
+/-! ### `Chain::initialize` on a store that already holds a chain (re-open after a restart) -/
+
+/-- `load_height`: the `height` field of the `chain:meta` record -/
+def loadHeight (s : List (SKey × SVal)) : Option Nat :=
+  match sget s .chainMeta with
+  | some (.height h) => some h
+  | _ => none
+
+/-- `while height > 0 && self.get_block_at(height)?.is_none() { height -= 1 }` -/
+def walkBack (s : List (SKey × SVal)) : Nat → Nat
+  | 0 => 0
+  | h + 1 => if (blockAt s (h + 1)).isSome then h + 1 else walkBack s h
+
+/-- `loop { if self.get_block_at(height + 1)?.is_some() { height += 1 } else { break } }`; every round consumes
+    a different block record, so `fuel` = number of records in the store is enough -/
+def walkFwd (s : List (SKey × SVal)) : Nat → Nat → Nat
+  | 0, h => h
+  | f + 1, h => if (blockAt s (h + 1)).isSome then walkFwd s f (h + 1) else h
+
+/-- `Chain::initialize` on a fresh `Chain` object (height 0, tip `[0u8; 32]`) over the store `s`: with a height
+    record the height is corrected against the block records actually present (back over missing blocks, then
+    forward over present ones), the tip is the hash of the block at that height, and the corrected height is
+    saved; without a height record a genesis block is created -/
+def openChain (C : Crypto) (s : List (SKey × SVal)) (proposer : List Nat) (ts : Nat) : ChainSt :=
+  match loadHeight s with
+  | some h0 =>
+    let h := walkFwd s s.length (walkBack s h0)
+    { store := sput s .chainMeta (.height h), height := h,
+      tip := match blockAt s h with
+        | some t => t.header.hash C
+        | none => C.zero }
+  | none => initChain C s proposer ts
 
 /-! ### `TensorChain`: workspaces and the commit pipeline -/
 
@@ -521,6 +572,43 @@ def stepOpX (C : Crypto) (n : Node) : OpX → Node
   | .register => registerSelf n
 
 def runOpsX (C : Crypto) (n : Node) (ops : List OpX) : Node := ops.foldl (stepOpX C) n
+
+/-! ### restart: a new `TensorChain` object (same identity) over the same store, then `initialize()` -/
+
+/-- `TensorChain::with_identity(store, config, identity)` + `initialize()`: the chain head is re-derived from the
+    store, the validator registry is a fresh one holding the node's own key, the transaction manager is empty.
+    Workspace objects the client still holds stay usable (`commit` / `rollback` take any workspace), they are
+    merely unknown to the new manager. -/
+def reopenNode (C : Crypto) (n : Node) (ts : Nat) : Node :=
+  { n with cfg := { n.cfg with registry := some [(n.cfg.nodeId, n.cfg.key)] },
+           chain := openChain C n.chain.store n.cfg.nodeId ts,
+           active := [] }
+
+/-- every client call: the sequential calls, the two registry calls, and the restart -/
+inductive OpR where
+  | x (o : OpX)
+  | reopen (ts : Nat)
+deriving DecidableEq, Repr
+
+def stepOpR (C : Crypto) (n : Node) : OpR → Node
+  | .x o => stepOpX C n o
+  | .reopen ts => reopenNode C n ts
+
+def runOpsR (C : Crypto) (n : Node) (ops : List OpR) : Node := ops.foldl (stepOpR C) n
+
+/-! ### `Chain::history(key)`: the transactions of blocks `0..=height` whose affected key is `key` -/
+
+def blockHistory (s : List (SKey × SVal)) (k h : Nat) : List (Nat × Tx) :=
+  match blockAt s h with
+  | some b => (b.txs.filter fun t => t.key = k).map fun t => (h, t)
+  | none => []
+
+/-- the `for h in 0..=height` loop, blocks that are not found are skipped -/
+def historyUpTo (s : List (SKey × SVal)) (k : Nat) : Nat → List (Nat × Tx)
+  | 0 => blockHistory s k 0
+  | h + 1 => historyUpTo s k h ++ blockHistory s k (h + 1)
+
+def history (c : ChainSt) (k : Nat) : List (Nat × Tx) := historyUpTo c.store k c.height
 
 /-! ### replica: `TensorStateMachine::apply_block` -/
 
